@@ -16,7 +16,10 @@ THEOREMS = ["CKT.C01." + t for t in ["expansion", "blocks_factor", "pair_prod_fa
            ["CKT.C01PTM." + t for t in ["expansion_run", "apply_prodV", "runOps_prodV", "init0_prod", "product_run", "round_trip_ptm",
                                         "applyL_tensor", "cutSlot_exact", "uncut_eq_slots", "cut_and_reconstruct", "exact_of_exactAt",
                                         "supported_exact", "cut_rzz_exact", "cut_cx_exact", "cut_move_exact", "cut_kak_exact",
-                                        "SGate.exact", "supported_round_trip"]]
+                                        "SGate.exact", "supported_round_trip",
+                                        # measured subexperiments: signed sums over fresh bits + Walsh identity => decoded distribution = E_p
+                                        "linRun_eq_runOps", "decoded_eq", "reconstruction_correct"]] + \
+           ["CKT.Sem.signed_run", "CKT.Sem.decode_full", "CKT.Sem.meas_signed", "CKT.Sem.decode_blocks"]
 RULE = ("cut problems on 1-5 qubits, 1-4 partitions, 0-2 cut gates of every family (incl. KAK gates), idle qubits, explicit and automatic labels, "
         "separated and single-circuit call forms, duplicate / identity observables; every subexperiment evaluated exactly by the harness's own "
         "density-matrix simulator; compared: the model's reconstruction (exact rationals) of those distributions with the implementation's, and "
@@ -29,7 +32,9 @@ ASSUMPTIONS = ["the vector of Pauli expectation values with operations acting th
 LEVEL_TEXT = ("round trip proved in the Pauli-expectation semantics for any number of partitions and cuts (`cut_and_reconstruct`: multilinear "
               "expansion in circuit order, product-vector invariant = tensor structure, factorisation of product observables on |0..0>), with the "
               "exactness hypothesis discharged by C02 for every supported gate (`supported_round_trip`), + abstract algebra version + bookkeeping "
-              "theorems of C05/C06; the identification of the model's slots with the package's subexperiments is by the C05/C10/C14 ties (partial)")
+              "theorems of C05/C06; `reconstruction_correct`: the sum over choices of coefficient x product over partitions of the parity-decoded outcome "
+              "distributions of the *measured* subexperiments (QPD measurements into fresh bits, rotations + measurements of the observable register) is "
+              "the uncut value; the identification of the model's slots / SubExp with the package's subexperiments is by the C05/C10/C11/C14 ties (partial)")
 _cache = {}
 ORACLE_EVERY = True  # the end-to-end comparison with the uncut circuit is run on every case
 
